@@ -105,7 +105,10 @@ JudgeC06(env, m, outs) ==
              \* the listener that must be named: any transport of the backend's listen entry / the learnt one
              cands == IF o.kind = "backend" THEN Range(env.trans) ELSE IF hh \in DOMAIN ln THEN {env.all[ln[hh]]} ELSE {}
              wantrr == rin # <<>> \/ env.mustrr
-         IN IF o.kind = "sink" /\ hh = "" THEN ""      \* destination not explained: C03's business
+         IN IF o.kind = "sink" /\ hh = ""              \* destination not explained (C03's business): only what holds for every pushed Via
+            THEN IF Len(vout) = Len(vin) + 1 /\ ViaSeqEq(StripTop(Tail(vout)), StripTop(vin))
+                 THEN (IF ~o.cookie THEN "P:C06:branch-without-RFC3261-cookie" ELSE IF ~o.fresh THEN "P:C06:branch-not-fresh" ELSE "")
+                 ELSE ""
             ELSE IF ~insert
             THEN IF ~ViaSeqEq(StripTop(vout), StripTop(vin)) THEN "P:C06:Via-changed-although-next-hop-not-learned"
                  ELSE IF ~RtSeqEq(rout, rin) THEN "P:C06:Record-Route-changed-although-next-hop-not-learned"
